@@ -37,6 +37,7 @@ class Flow:
         self._summary: dict[tuple, set] = {}
         self._alias: dict[str, Optional[str]] = {}
         self.unresolved: set[str] = set()
+        self._inputs: dict[tuple, set] = {}
 
     def df(self, f: FuncInfo) -> DataFlow:
         k = id(f.node)
@@ -100,6 +101,10 @@ class Flow:
                skip_vars: frozenset = frozenset()) -> set:
         df = self.df(f)
         selfname = df.selfname
+        memo_key = (id(f.node), id(cls.node) if cls is not None else 0, node_idx, id(expr), skip_vars)
+        if memo_key in self._inputs:
+            return self._inputs[memo_key]  # finished result, or the empty set while in progress (cycle)
+        self._inputs[memo_key] = set()
         res = Deps(df, skip_def=(lambda d: d.var in skip_vars)).deps(node_idx, expr)
         out: set = set()
         seen_src = set()
@@ -108,6 +113,7 @@ class Flow:
                 continue
             seen_src.add(id(e))
             out |= self._paths_of(f, cls, at, e, depth, selfname, skip_vars)
+        self._inputs[memo_key] = out
         return out
 
     def _is_param_root(self, df: DataFlow, at: int, name: str) -> bool:
